@@ -23,8 +23,11 @@
 #else
 #include <stdio.h>
 #include <unistd.h>
+static int vp_replay_failures;
+/* a failed assertion is recorded and the run continues, so that the report names exactly the
+ * obligations that fail on this input (the engine matches them against the solver's claim) */
 #define VP_ASSERT(c, msg) do { if (!(c)) { fprintf(stderr, "VP_REPLAY_FAIL: %s\n", msg); \
-        fflush(stderr); _exit(1); } } while (0)
+        fflush(stderr); vp_replay_failures++; } } while (0)
 #define VP_ASSUME(c) do { if (!(c)) { fprintf(stderr, "VP_REPLAY_VOID: assumption not met: %s\n", #c); \
         fflush(stderr); _exit(3); } } while (0)
 #define VP_REACH(label) ((void)0)
@@ -35,7 +38,8 @@
 #define VP_ENTRY_FN harness
 #endif
 void VP_ENTRY_FN(void);
-int main(void) { VP_ENTRY_FN(); fprintf(stderr, "VP_REPLAY_DONE\n"); return 0; }
+int main(void) { VP_ENTRY_FN(); fprintf(stderr, "VP_REPLAY_DONE failures=%d\n", vp_replay_failures);
+                 return vp_replay_failures ? 1 : 0; }
 #endif
 
 /* exact-extent object: its own allocation of exactly n bytes, so that any access outside it
